@@ -13,6 +13,8 @@ CLAIM = (
     "through `_verify_duplicate_names` and `_verify_symbol_table`; `map_symbol_table_to_ontology` reaches success only through "
     "`_topologically_sort`; (2) inside every verification function collected errors are returned (ERR1-3); (3) no `_verify_*` is "
     "stubbed: each has a CFG-reachable statement that produces an error."
+    " SKIPS: the verification / resolution loops in scope have no more `continue`, `break` or in-loop `return` statements than the reference "
+    "read on the unchanged tree (baselines/skips.json): a new skip means elements that were examined are no longer examined."
 )
 NOTE = (
     "Trusted base: name-based identification of the verification battery (functions named _verify_* returning List[Error]). "
@@ -117,3 +119,11 @@ def run(ctx) -> None:
         for f in p.module(modname).functions.values():
             err.check_err12(ctx, f, "ERR1", "ERR1v", "ERR2")
             err.check_err3(ctx, f, "ERR3")
+
+    ctx.rule("SKIPS", "verification/resolution loops have no more continue/break/return-in-loop statements than the reference read on the unchanged tree", floor=40)
+    from ..rules import skips as _skips
+    _base = _skips.load_baseline()
+    for _m in ctx.p.modules.values():
+        if _m.name in ("aas_core_codegen.intermediate._translate", "aas_core_codegen.intermediate._hierarchy", "aas_core_codegen.intermediate.construction", "aas_core_codegen.parse._translate"):
+            for _f in _m.functions.values():
+                _skips.check_skips(ctx, _f, "SKIPS", _base)
